@@ -586,6 +586,35 @@ func ruleGCScan(c *Ctx, r *Reporter) {
 	if n == 0 {
 		r.bad(name+"|watermark lowered", c.posStr(fn.Pos()), "the collector never lowers the watermark to the delete trackers' revisions: deletions are discarded before iterators saw them")
 	}
+	// the tracker's accessors are honest: getRevision returns the stored watermark unmodified
+	if gr := c.Func("statedb", "deleteTracker", "getRevision"); gr != nil {
+		good := true
+		nret := 0
+		for _, ret := range returnsOf(gr) {
+			nret++
+			call, ok := ret.Results[0].(*ssa.Call)
+			if !ok || c.calleeName(call) != "sync/atomic.(Uint64).Load" || !isFieldAddrOf(call.Call.Args[0], "deleteTracker", "revision") {
+				good = false
+			}
+		}
+		r.check(good && nret == 1, "statedb.(deleteTracker).getRevision|returns the stored watermark", c.posStr(gr.Pos()), "getRevision() is revision.Load()", "getRevision() does not return the tracker's stored revision unmodified (special-cased or transformed): the collector's minimum no longer covers this iterator")
+	} else {
+		r.anchorMissing("statedb.(deleteTracker).getRevision")
+	}
+	for _, spec := range [][2]string{{"setRevision", "rev"}, {"mark", "upTo"}} {
+		if f := c.Func("statedb", "deleteTracker", spec[0]); f != nil {
+			good := false
+			for _, call := range c.callsNamed(f, "sync/atomic.(Uint64).Store") {
+				a := call.Common().Args
+				if isFieldAddrOf(a[0], "deleteTracker", "revision") && a[1] == ssa.Value(f.Params[1]) {
+					good = true
+				}
+			}
+			r.check(good, "statedb.(deleteTracker)."+spec[0]+"|stores its argument", c.posStr(f.Pos()), spec[0]+" stores exactly the revision it is given", spec[0]+" does not store exactly the revision it is given into the tracker")
+		} else {
+			r.anchorMissing("statedb.(deleteTracker)." + spec[0])
+		}
+	}
 	// tracker loop: every tracker participates (loop exits only from the header)
 	var trackerNext []*ssa.Call
 	for _, ia := range allInstrs(fn) {
